@@ -25,7 +25,7 @@ import subprocess
 import sys
 import time
 
-from vlib import common, bcgen
+from vlib import common, bcgen, ringwrap
 from vlib.common import VERIF, LEAN
 
 sys.path.insert(0, os.path.join(VERIF, "tools"))
@@ -83,10 +83,10 @@ WITNESSES = [
 # running programs through both sides
 
 class Case:
-    __slots__ = ("name", "nodes", "src", "opts", "hline", "dline", "static", "dyn", "crash", "sig", "why")
+    __slots__ = ("name", "nodes", "src", "opts", "hline", "dline", "static", "dyn", "crash", "sig", "why", "rw")
 
-    def __init__(self, name, nodes=None, src=None, opts=""):
-        self.name, self.nodes, self.opts = name, nodes, opts
+    def __init__(self, name, nodes=None, src=None, opts="", rw=None):
+        self.name, self.nodes, self.opts, self.rw = name, nodes, opts, rw
         self.src = src if src is not None else bcgen.render(nodes)
         self.hline = self.dline = None
         self.static = self.dyn = self.crash = self.sig = self.why = None
@@ -189,8 +189,67 @@ def evaluate(exe, cases):
     return [classify(c) for c in cases]
 
 
+def rw_case(k, v, only=None):
+    p = ringwrap.program(k, v, typed_only=False, only=only)
+    return Case(p["name"] + ("" if only is None else ":units=" + ",".join(p["units"])), src=p["src"], rw=(k, v, only))
+
+
+def large_cases(quick):
+    """operand counts around the widths of the count operands (bcgen.large_family / large_param_family)"""
+    sizes = None if quick else bcgen.LARGE_SIZES + [511, 512, 513, 5000]
+    fam = bcgen.large_family(sizes) + bcgen.large_param_family()
+    if not quick:
+        # heights beyond 32767: the emitter's running height and maxima must not wrap (notes/C02-findings.md F7)
+        fam += [x for x in bcgen.large_family([40000]) if x[0].startswith(("large:carr:int", "large:makearray:"))]
+    return [Case(n, src=s, opts=o) for n, s, o in fam]
+
+
+def ringwrap_cases(ctx, quick):
+    """tools/vlib/ringwrap.py: every peephole-sensitive shape behind every pad 2..N (N covers two wrap-arounds of
+    the emitter's 100-entry look-back ring), several stale-maker rotations, one of them chosen by the seed"""
+    ks = range(2, 212) if quick else range(2, 412)
+    vs = [0, 1, 2] if quick else list(range(10))
+    vs.append(10 + ctx.rng("ringwrap").randrange(1000))
+    return [rw_case(k, v) for v in vs for k in ks]
+
+
+def shrink_ringwrap(exe, case):
+    """parametric shrinking of a ring-wrap program: (1) shortest failing prefix of its units (binary search),
+    (2) the last unit of that prefix alone behind every pad 2..101 (the pad that puts it on the same ring
+    index).  A candidate counts when it fails in the same class (static / dyn / harness-died)."""
+    k, v, only = case.rw
+    cls = (case.sig or "").split(":")[0]
+
+    def fails(c):
+        val = evaluate(exe, [c])[0]
+        return val in ("violation", "harness-died") and (c.sig or "").split(":")[0] == cls
+    n = len(ringwrap.units(v, typed_only=False))
+    lo, hi = 1, n                     # smallest prefix length that fails
+    best = case
+    while lo < hi:
+        mid = (lo + hi) // 2
+        c = rw_case(k, v, only=list(range(mid)))
+        if fails(c):
+            hi, best = mid, c
+        else:
+            lo = mid + 1
+    j = lo - 1
+    singles = [rw_case(kk, v, only=[j]) for kk in range(2, 102)]
+    verdicts = evaluate(exe, singles)
+    for c, val in zip(singles, verdicts):
+        if val in ("violation", "harness-died") and (c.sig or "").split(":")[0] == cls:
+            return c
+    if best is case and n > 1:
+        c = rw_case(k, v, only=list(range(lo)))
+        if fails(c):
+            best = c
+    return best
+
+
 def shrink(exe, case, budget_s=60, max_tests=900):
     """tree delta debugging towards programs that fail with the same signature"""
+    if case.rw is not None:
+        return shrink_ringwrap(exe, case)
     if case.nodes is None:
         return case
     t0 = time.time()
@@ -343,12 +402,15 @@ def check(ctx):
     distinct = set()
     failures = {}     # signature -> first case
     foreign = {}      # foreign-crash signature -> first case
+    fam_rejected = {}  # deterministic family member the compiler refuses although it is valid by construction
 
     def account(cases, verdicts):
         for c, v in zip(cases, verdicts):
             stats["programs"] += 1
             if v == "compile-error":
                 stats["compile_errors"][c.sig] = stats["compile_errors"].get(c.sig, 0) + 1
+                if c.name.startswith(("ringwrap:", "large:")) and not c.name.endswith(":reject"):
+                    fam_rejected.setdefault(c.name.split(":k")[0] if c.rw else c.name, c)
                 continue
             if v == "foreign-crash":
                 stats["foreign_crashes"][c.sig] = stats["foreign_crashes"].get(c.sig, 0) + 1
@@ -387,6 +449,11 @@ def check(ctx):
     # 1. corpus and witnesses (each once without and once with a `self`)
     fixed = corpus_cases() + [Case(n, src=s) for n, s in WITNESSES] + [Case(n + "+self", src=s, opts="self=1") for n, s in WITNESSES]
     run(fixed)
+    # 1b. deterministic families: ring-wrap sweep of the peephole shapes, large operand counts
+    fam = ringwrap_cases(ctx, quick) + large_cases(quick)
+    ctx.stats["family_programs"] = {"ringwrap": sum(1 for c in fam if c.rw), "large": sum(1 for c in fam if not c.rw)}
+    for j in range(0, len(fam), 100):
+        run(fam[j:j + 100])
     # 2. random programs
     rng = ctx.rng("random")
     n = 700 if quick else 12000
@@ -436,6 +503,15 @@ def check(ctx):
         classify(small)
         replay = save_case(ctx, small, "program", "violation")
         ctx.violations.append({"signature": sig, "replay": replay, "why": small.why or c.why, "found_input": True})
+    for name, c in sorted(fam_rejected.items())[:3]:
+        c.sig = "family-rejected:" + name
+        c.why = ("the compiler refuses `%s`, a program of the deterministic families that is valid by construction (%s): the clauses of C02 are "
+                 "unobserved for the construct it exists to exercise (operand counts up to the width of the count operand / peephole shapes); "
+                 "harness: %s" % (c.name, name, (c.hline or "")[:300]))
+        replay = save_case(ctx, c, "program", "family-rejected")
+        ctx.violations.append({"signature": c.sig, "replay": replay, "why": c.why, "found_input": True})
+    ctx.oblige("(coverage) every program of the deterministic families (ring-wrap sweep, large operand counts up to the count operands' width) is accepted by the compiler",
+               not fam_rejected, "%d refused: %s" % (len(fam_rejected), ", ".join(sorted(fam_rejected)[:8])), reported=True)
     ctx.oblige("correspondence: every program the real compiler accepted (%d) passes the proved verifier, and every transition of the real VM (%d) is a transition of the abstract VM, threads end with an empty stack" % (
         stats["accepted"], stats["edges"]), not failures, "%d distinct failure signatures: %s" % (len(failures), ", ".join(sorted(failures)[:8])), reported=True)
     ctx.stats.update({k: v for k, v in stats.items()})
@@ -452,7 +528,7 @@ def check(ctx):
     ctx.samples = [{"source": bcgen.render(sample_gen.program())}, {"source": WITNESSES[1][1]}]
     cov = {
         "evaluations": stats["programs"], "distinct_nontrivial": len(distinct),
-        "rule": "programs from tools/vlib/bcgen.py: %d random (12%% deliberate error statements, depth <= 6, 1-5 labels with 0-3 parameters, run with 0-4 host arguments, every 4th with a `self` entity), error-free ones with larger control flow, %d fixed witnesses/corpus, targeted ones when an obligation names opcodes; each compiled by the real compiler, verified by the compiled Lean verifier, every label run on the real VM under H4; non-trivial = accepted, >= 8 reached instructions and >= 4 distinct VM transitions replayed; distinct by SHA-1 of the emitted code" % (n, len(fixed)),
+        "rule": "programs from tools/vlib/bcgen.py + ringwrap.py: deterministic families (ring-wrap sweep: every peephole-sensitive statement shape behind every pad of 2..N recorded opcodes with rotating stale-makers; constant arrays / makeArray / parameter lists with 2..1000 operands), %d random (12%% deliberate error statements, depth <= 6, 1-5 labels with 0-3 parameters, run with 0-4 host arguments, every 4th with a `self` entity), error-free ones with larger control flow, %d fixed witnesses/corpus, targeted ones when an obligation names opcodes; each compiled by the real compiler, verified by the compiled Lean verifier, every label run on the real VM under H4; non-trivial = accepted, >= 8 reached instructions and >= 4 distinct VM transitions replayed; distinct by SHA-1 of the emitted code" % (n, len(fixed)),
         "traces_validated_against_impl": stats["edges"] + stats["starts"] + stats["ends"],
         "reached_opcode_histogram": ophist, "compile_errors": stats["compile_errors"], "run_outcomes": stats["runs"],
         "exhaustive": False,
